@@ -10,6 +10,8 @@ import (
 	"net"
 	"sync"
 
+	"github.com/Jigsaw-Code/outline-sdk/transport"
+	onet "github.com/Jigsaw-Code/outline-ss-server/net"
 	"github.com/Jigsaw-Code/outline-ss-server/service"
 )
 
@@ -81,12 +83,22 @@ func modeFault(outPath string, perCase int, seed int64) {
 				tr.Emit(ev{"ev": "Hello", "c": 1, "k": ks.Cls, "t": tok(streams[i][:ss]), "form": "fresh", "entropy_failures": fails})
 				fr := &failingReader{left: fails, inner: orig}
 				crand.Reader = fr // ---- fault window
-				id, conn, err := auth(c)
+				var id string
+				var err *onet.ConnectionError
 				var werr error
-				if err == nil {
-					_, werr = conn.Write(payload)
-				}
+				pi := guard(func() {
+					var conn transport.StreamConn
+					id, conn, err = auth(c)
+					if err == nil {
+						_, werr = conn.Write(payload)
+					}
+				})
 				crand.Reader = orig // ---- restored
+				if pi != nil {
+					tr.Emit(ev{"ev": "Panic", "c": 1, "where": pi.Where, "msg": pi.Msg, "cls": ks.Cls})
+					nconn++
+					continue
+				}
 				injected += fr.fails
 				nconn++
 				if err != nil {
